@@ -755,8 +755,8 @@ def case_discipline(p, ctx):
 
 
 def _contains(d, class_name: str, depth=0) -> bool:
-    if type(d).__name__ == class_name:
-        return True
+    if type(d).__name__ == class_name or (class_name == "SobieskiAerodynamics" and type(d).__name__ == "SobieskiAerodynamicsSG"):
+        return True  # (the SimpleGrammar variant shares the __setstate__ of the open finding C20-F5; thorough tier, seed 6)
     return depth < 4 and any(_contains(s, class_name, depth + 1) for s in getattr(d, "disciplines", ()) or ())
 
 
@@ -884,7 +884,7 @@ def _discipline_body(p, ctx, rec, tmp):
 
     # ------------------------------------------------------------------ behaviour on generated inputs
     ref = twin if twin is not None else orig
-    aero_alone = orig if type(orig).__name__ == "SobieskiAerodynamics" else None
+    aero_alone = orig if type(orig).__name__ in ("SobieskiAerodynamics", "SobieskiAerodynamicsSG") else None
     seen = list(life.history) + ([worker_input] if channel == "fork" else [])
     if "after_scenario_run" in life.flags:
         seen.append(None)  # points chosen by the DOE: any later point may be a hit
